@@ -25,6 +25,8 @@ SPECIAL = ["", "'", '"', "'\"", "\\", "a\\'b", "%", "%s", ":id", "x' OR '1'='1",
 CFGS = [dict(strategy='subquery', keyshape='str', names='default'),
         dict(strategy='validity', keyshape='str', names='custom'),
         dict(strategy='subquery', keyshape='str', names='default', table_name='%s_history'),
+        # the table-name format is an option of the MODEL only (the manager keeps '%s_version')
+        dict(strategy='subquery', keyshape='int', names='default', class_table_name='%s_log'),
         dict(strategy='subquery', keyshape='int', names='default'),
         dict(strategy='subquery', keyshape='intstr', names='default'),
         # composite integer keys whose PRIMARY KEY constraint lists the columns in another order than the class
@@ -83,6 +85,8 @@ def build(cfg):
     import sqlalchemy as sa
 
     def b(env, Base, opts):
+        if cfg.get('class_table_name'):
+            opts = dict(opts, table_name=cfg['class_table_name'])
         attrs = {'__tablename__': 'article', '__versioned__': opts}
         if cfg['keyshape'] == 'str':
             attrs['id'] = sa.Column(sa.Unicode(400), primary_key=True)
